@@ -74,10 +74,10 @@ def gen_constants(ctx):
     return sorted(pos), sorted(neg)
 
 
-def gen_cfg(depth, pos, neg, pads, arrlen, rich, sim=False):
-    return ('SPECIFICATION %s\nCONSTANTS Depth = %d\n BoundsPos = %s\n BoundsNeg = %s\n Pads = %s\n ArrLen = %d\n Rich = %s\n'
+def gen_cfg(depth, pos, neg, pads, arrlen, rich, sim=False, arrat=None):
+    return ('SPECIFICATION %s\nCONSTANTS Depth = %d\n BoundsPos = %s\n BoundsNeg = %s\n Pads = %s\n ArrLen = %d\n Rich = %s\n ArrAt = %d\n'
             '%sCHECK_DEADLOCK FALSE\n' % ('SimSpec' if sim else 'Spec', depth, tla_set(pos), tla_set(neg), tla_set(pads), arrlen,
-                                         'TRUE' if rich else 'FALSE', '' if sim else 'CONSTRAINT Emit\n'))
+                                         'TRUE' if rich else 'FALSE', depth if arrat is None else arrat, '' if sim else 'CONSTRAINT Emit\n'))
 
 
 def op_count(txt):
@@ -101,11 +101,11 @@ def replay_arm(ctx, binp):
     runs.append(('gen_d2', dict(cfg_text=gen_cfg(2, pos, neg, [0, 1, 2, 3], 1, False), timeout=1800), dict(depth=2, arrlen=1, rich=False)))
     if thorough:
         # literal arrays of two members (fast-path / slow-path pairs) under every conversion and a few bounds
-        runs.append(('gen_d2_arr2', dict(cfg_text=gen_cfg(2, [0, 1, 8, 9, 17], [1, 3], [0, 1, 2, 3], 2, False), timeout=3000),
-                     dict(depth=2, arrlen=2, rich=False, bounds='0,1,8,9,17,-1,-3')))
-        # three layers over small pools
-        runs.append(('gen_d3', dict(cfg_text=gen_cfg(3, [0, 1, 9], [2], [0, 2], 0, False), timeout=3000),
-                     dict(depth=3, arrlen=0, rich=False, bounds='0,1,9,-2', pads='0,2')))
+        runs.append(('gen_d2_arr2', dict(cfg_text=gen_cfg(2, [0, 1, 9, 17], [1], [0, 1, 2, 3], 2, False, arrat=0), timeout=3000),
+                     dict(depth=2, arrlen=2, rich=False, bounds='0,1,9,17,-1', arrays_around_computed=False)))
+        # three layers over small pools (arrays only around one-layer values)
+        runs.append(('gen_d3', dict(cfg_text=gen_cfg(3, [1, 9], [2], [0, 2], 0, False, arrat=1), timeout=3000),
+                     dict(depth=3, arrlen=0, rich=False, bounds='1,9,-2', pads='0,2', arrays_around_layers=1)))
     else:
         runs.append(('gen_d2_arr2', dict(cfg_text=gen_cfg(1, pos, neg, [0, 1, 2, 3], 2, True), timeout=900),
                      dict(depth=1, arrlen=2, rich=True)))
